@@ -86,6 +86,7 @@ type loopInst struct {
 	bgListed  bool
 	lsTxnID   uint64 // id Lightning Stream's latest own transaction was opened with
 	echo      bool // a Store without a preceding application change or start-up (C10)
+	startNewest map[string]time.Time // newest snapshot per other instance when the loop started (C16 run-once)
 }
 
 var (
@@ -337,6 +338,14 @@ func init() {
 			l.started = true
 			if _, _, err := newestBlob(fleetStore, l.id); err == nil {
 				l.ownAtStart = true
+			}
+			l.startNewest = map[string]time.Time{}
+			if ls, err := fleetStore.List(context.Background(), "db__"); err == nil {
+				for _, n := range ls.Names() {
+					if ni, err := snapshot.ParseName(n); err == nil && ni.InstanceID != l.id && ni.Timestamp.After(l.startNewest[ni.InstanceID]) {
+						l.startNewest[ni.InstanceID] = ni.Timestamp
+					}
+				}
 			}
 			go func() {
 				defer debug.SetPanicOnFault(debug.SetPanicOnFault(true))
